@@ -305,6 +305,17 @@ def getitem(prog: Program, rep: Report, MW: ClassInfo):
             is_one = [c for c in c1 if c[0] == "eq" and any(x[0] == "call" and x[1] == ("global", "len") for x in subterms(c))
                       and term_to_poly(c[1]).terms.get((), 0) in (1, -1)]
             ok = bool(is_one) and negate(is_one[0]) in c2
+            if not ok:
+                # the decision may be a flag the constructor computed once: self._single = len(self.items) == 1
+                flags = [c for c in c1 if c[0] == "self" and ("not", c) in c2]
+                init = MW.methods.get("__init__")
+                if flags and init is not None:
+                    ia = fa_of(prog, init)
+                    vals = [ia.sym.term(val, n_) for n_, var, val in ia.stores(f"{ia.self_name}.")
+                            if var == f"{ia.self_name}.{flags[0][1]}" and val is not None]
+                    good = [t_ for t_ in vals if t_[0] == "eq" and any(x[0] == "call" and x[1] == ("global", "len") for x in subterms(t_))
+                            and term_to_poly(t_[1]).terms.get((), 0) in (1, -1)]
+                    ok = True if (vals and len(good) == len(vals)) else None
         rep.decide(ok, "G9.return-shape", m, "bare-or-tuple", "items[0] iff len(items) == 1, tuple(items) otherwise",
                    "the single-item / tuple decision is not 'len(items) == 1'", clause="C01.2")
         # ---- un-fusing ------------------------------------------------------------------------------------------------------
@@ -705,6 +716,13 @@ def helpers(prog: Program, rep: Report, MW: ClassInfo):
             ok = rets == [("param", ps[0])]
         else:
             ok = len(rets) == 1 and rets[0][0] == "sub" and rets[0][1] == ("param", ps[1]) and rets[0][2] == ("param", ps[2])
+            if not ok and rets and len(ps) > 2:
+                # another look-up scheme (nested keys, fall-backs): every returned value is still read out of the context with a
+                # key computed from the key argument -> not decided; anything else is a definite violation
+                from ..deps import Deps
+                dp = Deps(fa, control=False)
+                rooted = all(("param", ps[1]) in dp.of_term(t_) and ("param", ps[2]) in dp.of_term(t_) for t_ in rets)
+                ok = None if rooted else False
         rep.decide(ok, "G9.tokeniser", f, "builtin-loader", "returns the index / ctx[key]",
                    f"{name} does not return {'its index argument' if want == 'param0' else 'ctx[ctx_key]'}", clause="C01.6",
                    nontrivial=False)
